@@ -32,6 +32,10 @@ def plans_core(prop, tier, seed):
     plans.append(dict(name="exhDeny", consts=base_consts(NR=3, Writer0=[1, 2, 3], Denied=[{2}, {1}, set()], Writers={2},
                                                         MaxE=4, MaxOps=6 if q else 7),
                       max_scripts=25000 if q else 400000))
+    # replicas rebuilt from another replica's entries and heads (NewLog with options), then both sides grow
+    plans.append(dict(name="exhFork", consts=base_consts(NR=3, Writer0=[1, 2, 1], MaxE=5 if q else 6, MaxOps=6 if q else 7,
+                                                        ForkOn={2, 3}),
+                      max_scripts=25000 if q else 300000))
     if not q:
         plans.append(dict(name="exhLWW4", consts=base_consts(NR=4, Writer0=[1, 2, 3, 1], Lid=["X"] * 4,
                                                              Denied=[set()] * 4, MaxE=4, MaxOps=5)))
